@@ -285,7 +285,7 @@ func c41ComparePS(id string, a, b PrivilegeSet, lost *c41Lost) {
 	}
 	okDyn = okDyn && len(a.globalDynamic) == len(b.globalDynamic)
 	for _, dbStored := range c41Dbs {
-		reachD := c41IsLower(dbStored)
+		reachD := true           // (before the repair of the loader: only lower-case spellings were found again)
 		for v := 0; v < 2; v++ { // v=1: every name of the query in the other case
 			sp := func(s string) string {
 				if v == 1 {
@@ -300,7 +300,7 @@ func c41ComparePS(id string, a, b PrivilegeSet, lost *c41Lost) {
 				okD = okD && db.Has(priv) == (x && reachD)
 			}
 			for _, tblStored := range c41Tbls {
-				reachT := reachD && c41IsLower(tblStored)
+				reachT := reachD
 				ta, tb := da.Table(sp(tblStored)), db.Table(sp(tblStored))
 				for _, priv := range c41Privs {
 					x := ta.Has(priv)
@@ -309,7 +309,7 @@ func c41ComparePS(id string, a, b PrivilegeSet, lost *c41Lost) {
 					okT = okT && tb.Has(priv) == (x && reachT)
 				}
 				for _, colStored := range c41Cols {
-					reachC := reachT && c41IsLower(colStored)
+					reachC := reachT
 					ca, cb := ta.Column(sp(colStored)), tb.Column(sp(colStored))
 					for _, priv := range c41Privs {
 						x := ca.Has(priv)
@@ -321,7 +321,7 @@ func c41ComparePS(id string, a, b PrivilegeSet, lost *c41Lost) {
 				}
 			}
 			for _, rt := range c41Rts {
-				reachR := reachD && c41IsLower(rt.name)
+				reachR := reachD
 				ra, rb := da.Routine(sp(rt.name), rt.proc), db.Routine(sp(rt.name), rt.proc)
 				for _, priv := range c41Privs {
 					x := ra.Has(priv)
@@ -371,8 +371,8 @@ func c41CompareDecisions(id string, a, b PrivilegeSet, used [3]bool) {
 		}
 		g, d, t, r := c41Levels(a, priv, dbq, op.Table, op.Routine, op.IsProcedure)
 		okBefore = okBefore && mdb.UserHasPrivileges(ctxA, op) == (g || d || t || r)
-		reachD := c41IsLower(dbStored)
-		want := g || (d && reachD) || (t && reachD && c41IsLower(tblStored)) || (r && reachD && c41IsLower(rtStored))
+		reachD := true // (before the repair of the loader: only lower-case spellings were found again)
+		want := g || (d && reachD) || (t && reachD) || (r && reachD)
 		okAfter = okAfter && mdb.UserHasPrivileges(ctxB, op) == want
 	}
 	for p, priv := range c41Privs {
@@ -668,11 +668,11 @@ func c41Decisions(db *MySQLDb, user, address string) [11]bool {
 // MySQLDb:
 //
 //	0 one account                       3 account + ephemeral superuser (not persisted, by contract)
-//	1 two accounts u@localhost, u@%     4 account + role + edge role -> account
+//	1 two accounts u@localhost, v@%     4 account + role + edge role -> account
 //	2 account + superuser               5 two accounts + role + edges to both
 //
-// The first account is u@localhost (thorough: also ''@localhost) with symbolic plugin / auth string /
-// identity / ssl_type / ssl_cipher / x509 issuer / subject (0..1 bytes, auth
+// The first account is u@localhost (thorough: also the anonymous account at
+// localhost) with symbolic plugin / auth string / identity / ssl_type / ssl_cipher / x509 issuer / subject (0..1 bytes, auth
 // string 2), symbolic attributes (nil or 1 byte), symbolic locked flag and
 // password_last_changed (any whole second), and a privilege set of 1 grant
 // (thorough 1..2) of c41Small; the other accounts are fixed and all different.
